@@ -149,7 +149,7 @@ def sig_json_started_without_result(witness):
     return bool(announced - reported)
 
 
-SIGNATURES = {'json-started-without-result': sig_json_started_without_result}
+SIGNATURES = {}
 
 _LAST = {}          # output of the real reporter of the run in progress (same process as DoitMain.run)
 
